@@ -136,3 +136,64 @@ Lemma program_shared_pairs :
    ("event_categorizer", "event_categorizer_update", false);
    ("tb_refinement_intrusive", "tb_refinement_lightweight", true)].
 Proof. vm_compute. reflexivity. Qed.
+
+(* ---- the same check in split form, with its soundness for EVERY valuation of the guard atoms ---- *)
+Definition share (ri rj : reg) : bool :=
+  negb (Nat.eqb (r_ctx ri) 0) && Nat.eqb (r_ctx ri) (r_ctx rj) && negb (is_barrier_reg ri).
+Fixpoint partners_ok (ri : reg) (mid : list reg) (rest : program) : bool :=
+  match rest with
+  | [] => true
+  | rj :: rest' => (if share ri rj then adjacent_regs mid || sep_by_barrier ri rj mid else true)
+                   && partners_ok ri (mid ++ [rj])%list rest'
+  end.
+Fixpoint sharing_ok2 (p : program) : bool :=
+  match p with [] => true | ri :: rest => partners_ok ri [] rest && sharing_ok2 rest end.
+Lemma program_sharing_ok2 : sharing_ok2 the_program = true.
+Proof. vm_compute. reflexivity. Qed.
+
+Lemma guard_eqb_eq : forall a b, guard_eqb a b = true -> a = b.
+Proof.
+  induction a as [|n|a IH|a1 IH1 a2 IH2]; intros [|m|b|b1 b2] H; cbn [guard_eqb] in H; try discriminate; try reflexivity.
+  - apply Nat.eqb_eq in H. now subst.
+  - f_equal. now apply IH.
+  - apply andb_prop in H. destruct H as [H1 H2]. f_equal; [now apply IH1|now apply IH2].
+Qed.
+
+Lemma partners_ok_sound ri : forall mid m0 rj b,
+  partners_ok ri m0 (mid ++ rj :: b)%list = true -> share ri rj = true ->
+  adjacent_regs (m0 ++ mid)%list = true \/ sep_by_barrier ri rj (m0 ++ mid)%list = true.
+Proof.
+  induction mid as [|x mid IH]; intros m0 rj b H Hs.
+  - cbn [app partners_ok] in H. rewrite Hs in H. apply andb_prop in H. destruct H as [H _].
+    rewrite app_nil_r. apply orb_prop in H. exact H.
+  - cbn [app partners_ok] in H. apply andb_prop in H. destruct H as [_ H].
+    specialize (IH (m0 ++ [x])%list rj b H Hs). rewrite <- app_assoc in IH. exact IH.
+Qed.
+
+(* whenever two registrations that share a context object both execute and something lies between them, a
+   pipeline_barrier registration between them executes too *)
+Theorem sharing_sound (v : nat -> bool) : forall p, sharing_ok2 p = true ->
+  forall a ri mid rj b, p = (a ++ ri :: mid ++ rj :: b)%list -> share ri rj = true -> mid <> [] ->
+  geval v (r_guard ri) = true -> geval v (r_guard rj) = true ->
+  exists r, In r mid /\ is_barrier_reg r = true /\ geval v (r_guard r) = true.
+Proof.
+  induction p as [|x p IH]; intros Hok a ri mid rj b Hp Hs Hm Hi Hj.
+  - destruct a; discriminate.
+  - cbn [sharing_ok2] in Hok. apply andb_prop in Hok. destruct Hok as [H1 H2].
+    destruct a as [|y a]; cbn [app] in Hp; injection Hp as -> ->.
+    + destruct (partners_ok_sound ri mid [] rj b H1 Hs) as [Ha|Hb]; cbn [app] in *.
+      * destruct mid; [congruence|discriminate].
+      * unfold sep_by_barrier in Hb. apply existsb_exists in Hb. destruct Hb as (r & Hin & Hr).
+        apply andb_prop in Hr. destruct Hr as [Hbar Hg]. exists r. split; [exact Hin|]. split; [exact Hbar|].
+        apply orb_prop in Hg. destruct Hg as [Hg|Hg].
+        -- apply orb_prop in Hg. destruct Hg as [Hg|Hg]; [now apply is_true_eval|].
+           apply guard_eqb_eq in Hg. now rewrite Hg.
+        -- apply guard_eqb_eq in Hg. now rewrite Hg.
+    + eapply IH; eauto.
+Qed.
+
+Theorem program_sharing_sound (v : nat -> bool) :
+  forall a ri mid rj b, the_program = (a ++ ri :: mid ++ rj :: b)%list -> share ri rj = true -> mid <> [] ->
+  geval v (r_guard ri) = true -> geval v (r_guard rj) = true ->
+  exists r, In r mid /\ is_barrier_reg r = true /\ geval v (r_guard r) = true.
+Proof. apply sharing_sound. exact program_sharing_ok2. Qed.
